@@ -28,7 +28,8 @@ from core import impl as I
 from props import C07 as B
 
 ID = "C08"
-LEAN_MODULES = ["AcnProofs.C08", "AcnProofs.Lemmas.CodeTieSorted"]
+LEAN_MODULES = ["AcnProofs.C08"]
+TIE_MODULES = ["AcnProofs.Lemmas.CodeTieSorted"]
 DRIVER = "drv_C08"
 REQUIRED_THEOREMS = [
     "Acn.C08.gen_eps", "Acn.C08.sorted_by_key", "Acn.C08.discrete_is_max", "Acn.C08.short_circuit",
